@@ -406,12 +406,15 @@ func (t *TriDense) Copy(a Matrix) (r, c int) {
 	case RawMatrixer:
 		amat := a.RawMatrix()
 		if t.isUpper() {
-			for i := 0; i < r; i++ {
+			// Rows at or beyond column c have no element in the
+			// upper triangle of the r×c overlap.
+			for i := 0; i < min(r, c); i++ {
 				copy(t.mat.Data[i*t.mat.Stride+i:i*t.mat.Stride+c], amat.Data[i*amat.Stride+i:i*amat.Stride+c])
 			}
 		} else {
 			for i := 0; i < r; i++ {
-				copy(t.mat.Data[i*t.mat.Stride:i*t.mat.Stride+i+1], amat.Data[i*amat.Stride:i*amat.Stride+i+1])
+				n := min(i+1, c)
+				copy(t.mat.Data[i*t.mat.Stride:i*t.mat.Stride+n], amat.Data[i*amat.Stride:i*amat.Stride+n])
 			}
 		}
 	case RawTriangular:
@@ -440,7 +443,7 @@ func (t *TriDense) Copy(a Matrix) (r, c int) {
 					t.set(i, j, a.At(i, j))
 				}
 			} else {
-				for j := 0; j <= i; j++ {
+				for j := 0; j < min(i+1, c); j++ {
 					t.set(i, j, a.At(i, j))
 				}
 			}
